@@ -104,6 +104,11 @@ static const struct {
     {3, 1, {2, 0}, 1.0},  // 10 7-gon + hole smaller than a cell
 };
 static const double PSCALE[4] = {0.37, 1.0, 2.7, 9.0};
+// cell-derived shapes (C15): shape POLY_NSHAPES+k = a small quadrilateral sitting on corner k (0..5) of the cell that contains the anchor at
+// the polygon's resolution, centred at 97 % of the way from the cell centre to that corner, half-size TIPSZ[scale] cell edges: it overlaps
+// the cell only in the tip that a too-small bounding-box pre-filter would cut off, and straddles the two other cells at that corner
+#define POLY_NSHAPES_EXT (POLY_NSHAPES + 6)
+static const double TIPSZ[4] = {0.02, 0.06, 0.15, 0.45};
 
 static double poly_wrap(double l) {
     while (l > M_PI) l -= 2 * M_PI;
@@ -113,9 +118,33 @@ static double poly_wrap(double l) {
 // build polygon; returns 0 ok, -1 if filtered out (too close to a pole / too wide / too many expected cells)
 static int poly_build(int shape, int anchor, int scale, int res, Poly *p) {
     poly_build_anchors();
-    if (anchor < 0 || anchor >= poly_nanchor || shape < 0 || shape >= POLY_NSHAPES || scale < 0 || scale > 3) return -1;
+    if (anchor < 0 || anchor >= poly_nanchor || shape < 0 || shape >= POLY_NSHAPES_EXT || scale < 0 || scale > 3) return -1;
     double u = poly_edge(res), sc = PSCALE[scale] * u;
     LatLng c = poly_anchor[anchor];
+    if (shape >= POLY_NSHAPES) {
+        uint64_t h = 0;
+        CellBoundary cb;
+        LatLng cc;
+        int k = shape - POLY_NSHAPES;
+        if (latLngToCell(&c, res, &h) || cellToBoundary(h, &cb) || cellToLatLng(h, &cc) || k >= cb.numVerts) return -1;
+        if (fabs(cc.lat) + 3 * u > M_PI / 2 - 0.02 || 3 * u / cos(cc.lat) > 1.2) return -1;
+        double dl = poly_wrap(cb.verts[k].lng - cc.lng), half = TIPSZ[scale] * u, cl = cos(cc.lat);
+        LatLng q = {cc.lat + 0.97 * (cb.verts[k].lat - cc.lat), cc.lng + 0.97 * dl};
+        static const double QX[4] = {-0.97, 1.01, 1.0, -1.04}, QY[4] = {-1.03, -0.99, 1.02, 0.98};
+        p->res = res;
+        p->u = u;
+        p->outer.n = 4;
+        for (int i = 0; i < 4; i++) {
+            p->outer.v[i].lat = q.lat + QY[i] * half;
+            p->outer.v[i].lng = poly_wrap(q.lng + QX[i] * half / cl);
+        }
+        p->nh = 0;
+        p->gp.geoloop.numVerts = 4;
+        p->gp.geoloop.verts = p->outer.v;
+        p->gp.numHoles = 0;
+        p->gp.holes = NULL;
+        return 0;
+    }
     if (poly_anchor_kind[anchor] == 5)  // keep the shape straddling the antimeridian at every resolution
         c.lng = c.lng > 0 ? M_PI - 0.8 * sc / cos(c.lat) : -M_PI + 0.6 * sc / cos(c.lat);
     if (fabs(c.lat) + 9 * sc > M_PI / 2 - 0.02) return -1;
